@@ -5,7 +5,8 @@ open TxV TxV.Proto TxV.Pipeline
 protocol (one output line per input line); an empty record / list is written as a single minus sign:
   `cfg w=8,8,4 n0=E/0/1/1/EMPTY/0:0:EMPTY;1:0:EMPTY n1=C/0/1/1/0,1/2:3:1.2 n2=E/0/4/0/1,2/EMPTY`  gives `ok`
       (EMPTY stands for the minus sign here)
-      `w`  = width of field 0,1,2...;  node `i`: `kind/nodep/cap/isPipe/req/gen`
+      `w`  = width of field 0,1,2...;  node `i`: `kind/nodep/cap/isPipe/req/gen/vpred`  (vpred: EMPTY or `field:mask`, the node's
+      method validates `(field & mask) != 0`)
       kind `E` external (`add_external`), `C` computed (called method / function stage);
       `req` = comma list of field ids; `gen` = `;`-separated `field:const:c1.c2...` (coefficients per
       required field)
@@ -50,12 +51,19 @@ def parseBit (s : String) : Option Bool :=
 
 def parseDesc (s : String) : Option Desc :=
   match s.splitOn "/" with
-  | [kind, nodep, cap, pipe, req, gen] =>
+  | [kind, nodep, cap, pipe, req, gen, vp] =>
+    let vpred : Option (Option (Nat × Nat)) :=
+      if vp == "-" then some none else
+        match vp.splitOn ":" with
+        | [f, k] => match f.toNat?, k.toNat? with
+          | some f, some k => some (some (f, k))
+          | _, _ => none
+        | _ => none
     match (if kind == "E" then some true else if kind == "C" then some false else none),
-          parseBit nodep, cap.toNat?, parseBit pipe, splitNats "," req, parseGen gen with
-    | some e, some nd, some c, some p, some r, some g =>
-      some { ext := e, nodep := nd, cap := c, isPipe := p, req := r, gen := g }
-    | _, _, _, _, _, _ => none
+          parseBit nodep, cap.toNat?, parseBit pipe, splitNats "," req, parseGen gen, vpred with
+    | some e, some nd, some c, some p, some r, some g, some v =>
+      some { ext := e, nodep := nd, cap := c, isPipe := p, req := r, gen := g, vpred := v }
+    | _, _, _, _, _, _, _ => none
   | _ => none
 
 def parseDescs (t : List String) (fuel : Nat) (i : Nat) : Option (List Desc) :=
